@@ -134,6 +134,16 @@ def run(ctx):
     repo = ctx.repo
     f = repo.func(f"{CORE}:Graph.sort")
     cfg, per = ef.events(f)
+    # sort() may delegate its read-only phases (collect, count predecessors, order, cycle check) to private methods of Graph that
+    # it calls on self: they are read together with it
+    gcls0 = repo.cls(f"{CORE}:Graph")
+    helpers = []
+    for c in calls_in(f):
+        if isinstance(c.func, ast.Attribute) and norm(c.func.value) == f.params[0] and c.func.attr.startswith("_") and c.func.attr in gcls0.methods:
+            h = gcls0.methods[c.func.attr]
+            if not ef.summary(h).mods and h not in helpers:
+                helpers.append((h, c))
+    parts = [f] + [h for h, _c in helpers]
     # R1
     used: dict = {}
     sites = c06.analyse_mutator(ef, f, used)
@@ -141,16 +151,22 @@ def run(ctx):
     ctx.check("R1", "Graph.sort: no write precedes a feasible rejection", not bad, f, bad[0][1].node if bad else f.node,
               f"sort can raise after it has already changed a graph's order: {[r.key for r in bad[0][2]][:3] if bad else ''}",
               how="C06 forward may-analysis (M before C) over the sort's CFG")
-    raises = [n for n in own_nodes(f.node) if isinstance(n, ast.Raise)]
+    raises = [(p_, n) for p_ in parts for n in own_nodes(p_.node) if isinstance(n, ast.Raise)]
     mnodes = [nid for nid, evs in per.items() if any(e.kind == "M" and (e.tags - {None}) for e in evs)]
     ok = len(raises) == 1 and bool(mnodes)
     if ok:
-        iff = getattr(raises[0], "_parent", None)
+        rp, rz = raises[0]
+        iff = getattr(rz, "_parent", None)
         # the guard compares the number of nodes the sort could order with the number of nodes it was given
         ok = isinstance(iff, ast.If) and any(isinstance(x, ast.Compare) and any(
             isinstance(y, ast.Call) and dotted_of(y.func) == "len" for y in ast.walk(x)) for x in ast.walk(iff.test))
-        tn = [x for x in cfg.node_of(iff) if x.kind == "test"][0]
-        ok = ok and all(cfg.dominates(tn, cfg.nodes[nid]) for nid in mnodes)
+        if rp is f:
+            tn = [x for x in cfg.node_of(iff) if x.kind == "test"][0]
+        else:
+            # the check lives in a read-only phase: the call of that phase is what has to come first
+            hc = next(c for h, c in helpers if h is rp)
+            tn = cfg.nodes_containing(hc)[0]
+        ok = ok and all(cfg.dominates(tn, cfg.nodes[nid]) and tn.id != nid for nid in mnodes)
     ctx.check("R1", f"the cycle check dominates all {len(mnodes)} state-writing statement(s) of sort", bool(ok), f, f.node,
               "a graph is relinked before it is known whether the dependencies contain a cycle",
               how="dominator query: `if sorted != len(nodes): raise` over every M event of the function")
@@ -172,29 +188,35 @@ def run(ctx):
             gvar, bvar = norm(loop.target.elts[0]), norm(loop.target.elts[1])
             table = norm(loop.iter)[: -len(".items()")]
             ok = norm(ext[0].func.value) == gvar and bvar in norm(ext[0].args[0])
-            puts = [n for n in own_nodes(f.node) if isinstance(n, ast.Call) and isinstance(n.func, ast.Attribute) and n.func.attr in ("append", "appendleft")
-                    and isinstance(n.func.value, ast.Subscript) and norm(n.func.value.value) == table]
+            # the table is filled in sort() itself, or in the phase whose result it is (`table = self._phase()` … `return <name>`)
+            tables = {id(f): {table}}
+            for h, hc in helpers:
+                par = getattr(hc, "_parent", None)
+                if isinstance(par, ast.Assign) and any(norm(t) == table for t in par.targets):
+                    tables[id(h)] = {norm(r.value) for r in own_nodes(h.node) if isinstance(r, ast.Return) and isinstance(r.value, ast.Name)}
+            puts = [n for p_ in parts for n in own_nodes(p_.node) if isinstance(n, ast.Call) and isinstance(n.func, ast.Attribute) and n.func.attr in ("append", "appendleft")
+                    and isinstance(n.func.value, ast.Subscript) and norm(n.func.value.value) in tables.get(id(p_), ())]
             ok = ok and len(puts) == 1 and norm(puts[0].func.value.slice) == f"{norm(puts[0].args[0])}.graph"
     ctx.check("R2", "each bucket is keyed by node.graph and extended into that graph", bool(ok), f, ext[0] if ext else f.node,
               "sorted nodes can be relinked into a graph other than the one they belong to (a node changes graphs, or Graph.extend rejects it half-way)",
               how="bucket[node.graph].append(node) … for graph, bucket in buckets.items(): graph.extend(… bucket …)")
     # the nodes are produced in reverse topological order: either appended and reversed when relinked, or pushed at the
     # front (deque.appendleft) and relinked as they are
-    front = [n for n in own_nodes(f.node) if isinstance(n, ast.Call) and isinstance(n.func, ast.Attribute) and n.func.attr == "appendleft" and isinstance(n.func.value, ast.Subscript)]
+    front = [n for p_ in parts for n in own_nodes(p_.node) if isinstance(n, ast.Call) and isinstance(n.func, ast.Attribute) and n.func.attr == "appendleft" and isinstance(n.func.value, ast.Subscript)]
     rev = bool(ext) and (("reversed(" in norm(ext[0].args[0])) != bool(front))
     ctx.check("R2", "buckets (built in reverse topological order) are reversed when relinked", rev, f, ext[0] if ext else f.node,
               "nodes are relinked in reverse order", how="reversed(bucket)", nontrivial=False)
-    keys = [n for n in own_nodes(f.node) if isinstance(n, (ast.DictComp,)) and any(isinstance(x, ast.Attribute) and x.attr == "graph" for x in ast.walk(n))]
+    keys = [n for p_ in parts for n in own_nodes(p_.node) if isinstance(n, (ast.DictComp,)) and any(isinstance(x, ast.Attribute) and x.attr == "graph" for x in ast.walk(n))]
     ctx.check("R2", "one bucket per graph that owns a traversed node", bool(keys), f, f.node, "bucket table is not derived from node.graph", nontrivial=False)
     # R3
     n = 0
     for g, node, ok, detail, label in s1_sites(repo, {CORE}):
-        if g.key != f.key:
+        if g.key not in {p_.key for p_ in parts}:
             continue
         n += 1
         ctx.check("R3", f"S1 Graph.sort: {label}"[:150], ok, g, node, detail, how="GRAPH/GRAPHS sibling agreement", construct=f"S1 {label}")
     ctx.require(n >= 1, "GRAPH/GRAPHS dispatch in Graph.sort not found")
-    it = [c for c in calls_in(f) if (dotted_of(c.func) or "").endswith("RecursiveGraphIterator")]
+    it = [c for p_ in parts for c in calls_in(p_) if (dotted_of(c.func) or "").endswith("RecursiveGraphIterator")]
     ctx.check("R3", "sort traverses the graph recursively (all nested nodes take part)", bool(it), f, f.node,
               "nodes of nested graphs are not collected", how="RecursiveGraphIterator(self)", nontrivial=False)
     # … and the traversal the node set comes from descends into GRAPH and GRAPHS attributes alike (S1 on the iterator)
@@ -214,7 +236,7 @@ def run(ctx):
               "functions (or the main graph) are left unsorted by the pass", how="sort calls on model.graph and in a loop over model.functions")
     # R4
     n_edges = 0
-    for g, lp, ec, bad in _edge_loops(repo, f):
+    for g, lp, ec, bad in [x for p_ in parts for x in _edge_loops(repo, p_)]:
         n_edges += 1
         ctx.check("R4", f"{g.local}: {norm(ec)[:60]} is recorded for every non-None input", bad is None, g, bad if bad is not None else ec,
                   f"the dependency edge from an input's producer is recorded only when `{norm(bad.test) if isinstance(bad, ast.If) else norm(bad) if bad is not None else ''}` "
@@ -226,7 +248,7 @@ def run(ctx):
     from ..shared import ref_attr_guards
 
     n7 = 0
-    for g in [f, repo.func("onnx_ir.traversal:RecursiveGraphIterator._iterate_subgraphs")]:
+    for g in parts + [repo.func("onnx_ir.traversal:RecursiveGraphIterator._iterate_subgraphs")]:
         for node, guarded in ref_attr_guards(g):
             n7 += 1
             ctx.check("R7", f"S18 {g.local}: the graph-attribute dispatch is not reached for reference attributes", guarded, g, node,
@@ -237,7 +259,7 @@ def run(ctx):
     ctx.require(n7 >= 2, "graph-attribute dispatches of sort() / the recursive iterator not found")
     # R6
     n_nested = 0
-    for fn in [f] + list(f.nested.values()):
+    for fn in [q for p_ in parts for q in [p_] + list(p_.nested.values())]:
         for br in (x for x in own_nodes(fn.node) if isinstance(x, ast.If)):
             kinds = {y.attr for y in ast.walk(br.test) if isinstance(y, ast.Attribute) and y.attr in ("GRAPH", "GRAPHS") and (dotted_of(y) or "").endswith(f"AttributeType.{y.attr}")}
             if not kinds:
@@ -269,7 +291,7 @@ def run(ctx):
     ctx.require(n_nested >= 2, "Graph.sort: loops recording the nodes of GRAPH / GRAPHS subgraphs as predecessors not found")
     # R5
     gcls = repo.cls(f"{CORE}:Graph")
-    scope_funcs = [f] + list(f.nested.values())
+    scope_funcs = [q for p_ in parts for q in [p_] + list(p_.nested.values())]
     seen = {f.key}
     work = [f]
     while work:
